@@ -1,18 +1,22 @@
-/* Contract for the ksymtab marking statement of symtab::load_ (C28): when <name> is exported through
-   the kernel symbol table, EVERY public symbol recorded under that name is marked as exported,
-   wherever it sits in the list (local symbols of the same name come first in .symtab), and no
-   non-public symbol is.  Stated for an arbitrary watched entry w of a list of arbitrary length. */
+/* Contract for the ksymtab marking loop of symtab::load_ (C28): for every name exported through a
+   __ksymtab_<name> marker that has symbols, EVERY public symbol recorded under that name is marked as
+   exported - wherever it sits in its list (local symbols of the same name come first in .symtab) and
+   whatever happens with the other exported names (a marker whose name has no function/object symbol,
+   e.g. an exported assembly label, must not affect them) - and no non-public symbol is.
+   Stated for an arbitrary watched name and an arbitrary watched symbol of it.                  */
 #include "vstd_c.h"
 #include "ghost.h"
-int gh_lc_phase, gh_w_public, gh_w_old; unsigned long gh_n, gh_w;
+int gh_lc_phase, gh_lc_phase_inner, gh_wname_found, gh_w_public, gh_w_old; unsigned long gh_nnames, gh_wname, gh_n, gh_w, gh_cur_name;
 int w_ksymtab_mark(void);
 void h_ksymtab_mark(void)
 {
+  gh_nnames = nondet_ulong(); gh_wname = nondet_ulong(); gh_wname_found = nondet_int() != 0;
   gh_n = nondet_ulong(); gh_w = nondet_ulong(); gh_w_public = nondet_int() != 0; gh_w_old = nondet_int() != 0;
-  __CPROVER_assume(gh_n <= (1UL << 20) && gh_w < gh_n);
-  gh_lc_phase = nondet_int();
+  __CPROVER_assume(gh_nnames <= (1UL << 20) && gh_wname < gh_nnames && gh_n <= (1UL << 20) && gh_w < gh_n);
+  gh_lc_phase = nondet_int(); gh_lc_phase_inner = nondet_int();
   int marked = w_ksymtab_mark();
-  __CPROVER_assert(gh_w_public ==> marked, "postcondition: every public symbol of an exported name is marked as exported");
+  __CPROVER_assert((gh_wname_found && gh_w_public) ==> marked, "postcondition: every public symbol of an exported name is marked as exported");
   __CPROVER_assert((!gh_w_public && !gh_w_old) ==> !marked, "postcondition: a non-public symbol is not marked");
+  __CPROVER_assert((!gh_wname_found && !gh_w_old) ==> !marked, "postcondition: symbols of other names are not marked");
   CANARY_h_ksymtab_mark;
 }
